@@ -16,7 +16,7 @@ from .stale import StepFlow, components, flat_fields, observation_leaves
 _memo: Dict[Tuple[int, int], T] = {}
 
 
-def rewrite(t: T, mapping: Dict[int, T], memo: Optional[Dict[int, T]] = None) -> T:
+def rewrite(t: T, mapping: Dict[int, T], memo: Optional[Dict[int, T]] = None, vfg=None) -> T:
     if memo is None:
         memo = {}
     r = memo.get(t.id)
@@ -25,13 +25,26 @@ def rewrite(t: T, mapping: Dict[int, T], memo: Optional[Dict[int, T]] = None) ->
     if t.id in mapping:
         memo[t.id] = mapping[t.id]
         return mapping[t.id]
+    if vfg is not None:
+        # t is a field / element of a mapped value (attribute access distributed over a selection):
+        # rebuild the same access on the image of that value
+        for src, acc in vfg.projection_acc.get(t.id, ()):
+            if src.kind in ("const", "ext", "cls", "mod", "self", "param"):
+                continue
+            memo[t.id] = t  # cycle guard
+            img = rewrite(src, mapping, memo, vfg)
+            if img is not src and _mapped_root(src, mapping, vfg, 0):
+                r = vfg.mk_attr(img, acc[1]) if acc[0] == "attr" else vfg.mk_proj(img, acc[1])
+                memo[t.id] = r
+                return r
+            del memo[t.id]
     if t.kind in ("fn", "opaque", "const", "ext", "cls", "mod", "self", "param"):
         memo[t.id] = t
         return t
 
     def conv(a):
         if isinstance(a, T):
-            return rewrite(a, mapping, memo)
+            return rewrite(a, mapping, memo, vfg)
         if isinstance(a, tuple):
             return tuple(conv(x) for x in a)
         return a
@@ -41,6 +54,15 @@ def rewrite(t: T, mapping: Dict[int, T], memo: Optional[Dict[int, T]] = None) ->
     r = t if same else mk(t.kind, *new_args)
     memo[t.id] = r
     return r
+
+
+def _mapped_root(t: T, mapping, vfg, depth: int) -> bool:
+    """t is a mapped value or a projection (chain) of one."""
+    if t.id in mapping:
+        return True
+    if depth > 6:
+        return False
+    return any(_mapped_root(src, mapping, vfg, depth + 1) for src, _ in vfg.projection_acc.get(t.id, ()))
 
 
 def _same(a, b) -> bool:
@@ -68,11 +90,38 @@ def old_mask(ea: EnvAnalysis, sf: StepFlow, mask_new: T) -> T:
                 n2 = vfg.mk_attr(new, g)
                 mapping.setdefault(n2.id, vfg.mk_attr(old, g))
                 mapping.setdefault(strip_cast(n2).id, vfg.mk_attr(old, g))
-    return rewrite(mask_new, mapping)
+        if new.kind == "batched":
+            # per-element view of a mapped result  <->  element of the incoming field
+            mapping.setdefault(new.args[0].id, vfg.wrap("elem", old))
+    return rewrite(mask_new, mapping, None, vfg)
+
+
+def canonical_action(t: T, action: T) -> T:
+    """Per-action view of a mask built by mapping a body over an enumeration of actions:
+    `ones(..).at[I].set(batched(body))` / `batched(body)` -> body, with the enumeration variable
+    elem(arange(..)) and the per-agent elem(action) both replaced by the action."""
+    t = strip_cast(t)
+    while t.kind in ("batched", "copy"):
+        t = strip_cast(t.args[0])
+    # ones.at[I].set(X): entries outside I are constant True (no-op always allowed) -- keep X
+    while t.kind == "call" and t.args[0].kind == "attr" and t.args[0].args[1] == "set" and t.args[0].args[0].kind == "index" \
+            and t.args[0].args[0].args[0].kind == "attr" and t.args[0].args[0].args[0].args[1] == "at" \
+            and ext_name(strip_cast(t.args[0].args[0].args[0].args[0])) in ("jax.numpy.ones",) and len(t.args[1]) == 1:
+        t = strip_cast(t.args[1][0])
+        while t.kind in ("batched", "copy"):
+            t = strip_cast(t.args[0])
+    mapping: Dict[int, T] = {}
+    for n in deps(t):
+        if n.kind == "elem":
+            inner = strip_cast(n.args[0])
+            if inner is action or ext_name(inner) in ("jax.numpy.arange",):
+                mapping[n.id] = action
+    return rewrite(t, mapping) if mapping else t
 
 
 def erase_action_index(t: T, action: T) -> T:
     """index(X, <something built from the action>) -> X ; batched(body) -> body ; elem(X) -> X."""
+    t = canonical_action(t, action)
     memo: Dict[int, T] = {}
 
     def go(x: T) -> T:
@@ -176,9 +225,13 @@ def conj_forms(t: T) -> Set[tuple]:
     return out
 
 
+LAST_DIFF: Dict[str, set] = {}
+
+
 def compare(mask_old: T, validity: T, action: T) -> Tuple[Optional[bool], str]:
     """True = equivalent after normalisation; False = definitely different (same quantities, different
     strictness / constant / polarity); None = cannot be aligned."""
+    LAST_DIFF.clear()
     A = conj_forms(erase_action_index(mask_old, action))
     B = conj_forms(erase_action_index(validity, action))
     if A == B:
@@ -187,8 +240,16 @@ def compare(mask_old: T, validity: T, action: T) -> Tuple[Optional[bool], str]:
     if sa == sb:
         diff = sorted(str(x) for x in (A ^ B))
         return False, f"same quantities but different strictness / constant / polarity: {len(A ^ B)} atom(s) differ"
+    shared = A & B
+    only_a, only_b = A - B, B - A
+    ska, skb = {skeleton_of(x) for x in only_a}, {skeleton_of(x) for x in only_b}
+    if shared and len(shared) >= max(len(only_a), len(only_b)) and not (ska & skb):
+        # the two sides agree on most clauses and each difference is a whole clause present on one side only
+        LAST_DIFF["mask_only"] = only_a
+        LAST_DIFF["step_only"] = only_b
+        return None, f"EXTRA mask:{len(A - B)} step:{len(B - A)} -- identical on the shared clauses; one side has additional clauses"
     if sb < sa or sa < sb:
-        return None, "one side has additional clauses"
+        return None, "one side has additional clauses (and shared clauses differ in form)"
     return None, "different structure"
 
 
